@@ -147,7 +147,8 @@ def collision_tables(case, sig_a, sig_b):
             return v.split('{')[0]
         return ''
     for (ka, va), (kb, vb) in [((sig_a[1], sig_a[2]), (sig_b[1], sig_b[2])), ((sig_a[4], sig_a[5]), (sig_b[4], sig_b[5])),
-                               ((sig_a[6], sig_a[7]), (sig_b[6], sig_b[7])), ((sig_a[12], sig_a[13]), (sig_b[12], sig_b[13]))]:
+                               ((sig_a[6], sig_a[7]), (sig_b[6], sig_b[7])), ((sig_a[12], sig_a[13]), (sig_b[12], sig_b[13])),
+                               ((sig_a[10], sig_a[11]), (sig_b[10], sig_b[11]))]:        # language / datatype maps too
         if not isinstance(va, str) or not isinstance(vb, str):
             continue
         ia, ib = inv(ka, va), inv(kb, vb)
